@@ -177,7 +177,9 @@ func cmdDump(args []string) int {
 			fmt.Println("   (no contract)")
 			continue
 		}
+		tv := time.Now()
 		r := verifyFunc(L, db, f, fc)
+		fmt.Printf("  (symbolic execution %.1fs of which %d inline solver calls %.1fs, %d obligations, %d states)\n", time.Since(tv).Seconds(), r.InlineN, r.InlineS, len(r.Obs), r.States)
 		for _, e := range r.Errs {
 			fmt.Println("  ERR", e)
 		}
@@ -185,7 +187,7 @@ func cmdDump(args []string) int {
 		discharge(r.Obs, scratch, "quick", 0)
 		os.RemoveAll(scratch)
 		for _, ob := range r.Obs {
-			fmt.Printf("  %-8s %-7s %5.2fs %s [%s]\n", ob.Kind, ob.Result, ob.Seconds, ob.Name, ob.Path)
+			fmt.Printf("  %-8s %-7s %5.2fs %s [%s] %s\n", ob.Kind, ob.Result, ob.Seconds, ob.Name, ob.Path, ob.Solver)
 			if *which != "" && strings.Contains(ob.Name, *which) && ob.Result != ob.Expect {
 				fmt.Println(ob.Script)
 				fmt.Println(ob.Output)
